@@ -10,7 +10,7 @@ RULE = ("the C07 case set (reference-encoded data through every filter with a bo
 
 
 def classify(case, code):
-    # C08 inherits nothing: the TIFF pass-through does not affect limit/agreement (both paths pass the data through)
+    # C08 has no open class (TIFF predictor 2 is decoded by both drivers through the shared apply_predictor)
     return None
 
 
